@@ -43,14 +43,21 @@ SUBSTITUTIONS = [
      'substitute': 'the innermost handler body (functools __wrapped__ chain) is called with a FakeRequest; the wrappers (session auth, '
                    '_user_can_access, instance token / in-memory state checks) are NOT executed',
      'why': 'no auth service; the ops of INTERFACE.md carry no credentials; worker messages must be able to race with deactivation'},
-    {'op': 'schedule_job', 'real': 'batch.driver.job.schedule_job',
-     'substitute': "db.execute_and_fetchone('CALL schedule_job(%s, %s, %s, %s);', (batch_id, job_id, attempt_id, instance.name)) followed by "
-                   'the same in-memory free-core adjustment (rv[delta_cores_mcpu] != 0 and instance.state == active)',
-     'why': 'the function first builds the job config from k8s secrets and POSTs it to the worker, and asserts the in-memory '
-            "instance state is 'active' (which would hide the procedure's own guards against late/stale scheduling)"},
+    {'op': 'schedule_job', 'real': 'PoolScheduler.schedule_loop_body (pool instances) / JobPrivateInstanceManager.schedule_jobs_loop_body -> '
+                                   'batch.driver.job.schedule_job',
+     'substitute': "the REAL batch.driver.job.schedule_job, recompiled from the source of $VERIF_REPO in the module's namespace with (a) its leading "
+                   "`assert instance.state == 'active'` removed, (b) job_config() = fake returning {}, (c) the worker POST dropped (no-op client "
+                   'session) and instance.mark_healthy() a no-op for the duration of the call; for an instance of a POOL it is called the way '
+                   "the pool scheduler calls it: the real statement `instance.adjust_free_cores_in_memory(-record['cores_mcpu'])` of "
+                   'schedule_loop_body (cut out by AST; cores_mcpu read from the jobs row) and then the real nested '
+                   '`schedule_with_error_handling(app, record, instance)` (cut out by AST); the answer {rc, delta_cores} (or the SQL error, which '
+                   'schedule_with_error_handling swallows) is read off a recording proxy around app[db]',
+     'why': 'the job config needs k8s secrets and the POST needs a worker; the assert would hide the procedure\'s own guards against late/stale '
+            'scheduling; mark_healthy only writes instances.last_updated / failed_request_count (not part of any family property) and its UPDATE '
+            'would shift the statement indices of the race schedules'},
     {'op': 'unschedule_job (reason != "cancelled")', 'real': 'batch.driver.job.unschedule_job',
-     'substitute': "db.execute_and_fetchone('CALL unschedule_job(%s, %s, %s, %s, %s, %s);', (..., end_time, reason)); with reason == "
-                   "'cancelled' the REAL function is called",
+     'substitute': "the REAL function recompiled from source with the one constant 'cancelled' in the argument tuple of its CALL replaced by the "
+                   "op's reason (end_time = virtual clock = the op's time); with reason == 'cancelled' the unmodified function is called",
      'why': "the real function hard-codes the reason 'cancelled'"},
     {'op': 'mark_complete', 'real': 'batch.driver.main.job_complete_1 (worker report) / Canceller.cancel_* (driver)',
      'substitute': 'batch.driver.job.mark_job_complete (the REAL function both call) with the op fields as arguments; job_group_id '
@@ -212,6 +219,34 @@ class Box:
         self.value = value
 
 
+async def _async_noop(*a, **k):
+    return None
+
+
+class RecordingDB:
+    """app['db'] for one call of a real driver function: everything is delegated to the FakeDatabase; the answers of
+    execute_and_fetchone (by query name) and the first exception are kept, so that the op can report what the CALL answered
+    even where the real caller swallows it."""
+
+    def __init__(self, db):
+        self._db = db
+        self.answers = {}
+        self.error = None
+
+    def __getattr__(self, name):
+        return getattr(self._db, name)
+
+    async def execute_and_fetchone(self, sql, args=None, query_name=None):
+        try:
+            rv = await self._db.execute_and_fetchone(sql, args, query_name)
+        except Exception as e:  # noqa: BLE001
+            if self.error is None:
+                self.error = e
+            raise
+        self.answers[query_name] = rv
+        return rv
+
+
 # ----------------------------------------------------------------------------------------------------------------------
 # loading the real code
 # ----------------------------------------------------------------------------------------------------------------------
@@ -247,6 +282,7 @@ class Impl:
         self.h_delete = _unwrap(fe.delete_batch)
         self.Resource = dm.Resource
         self.picks = self._load_picks()
+        self._load_job_functions()
 
     def _nested(self, relpath, qual, name, extra_globals):
         """Cut the nested (async generator) function `name` out of method `qual` and compile it with `self` as a global."""
@@ -266,6 +302,65 @@ class Impl:
             exec(code, g)
             return g[name]
         return make
+
+    def _load_job_functions(self):
+        """The REAL batch.driver.job.schedule_job / unschedule_job and the pool scheduler's call of schedule_job, recompiled from the
+        source of $VERIF_REPO (see SUBSTITUTIONS for the three cuts).  Fail closed: an unexpected shape raises."""
+        import textwrap
+        dj = self.dj
+        relpath = 'batch/batch/driver/job.py'
+        src, _node = hailload.load_function_source(relpath, 'schedule_job')
+        tree = ast.parse(textwrap.dedent(src))
+        fn = tree.body[0]
+        if fn.body and isinstance(fn.body[0], ast.Assert) and ast.unparse(fn.body[0].test) == "instance.state == 'active'":
+            del fn.body[0]
+        if [a.arg for a in fn.args.args] != ['app', 'record', 'instance']:
+            raise Unsupported(f'schedule_job has an unexpected signature: {ast.unparse(fn.args)}')
+        g = dict(dj.__dict__)
+
+        async def fake_job_config(app, record):
+            return {}
+        g['job_config'] = fake_job_config
+        exec(compile(tree, f'{relpath}:schedule_job', 'exec'), g)
+        self.schedule_job = g['schedule_job']
+
+        # the pool scheduler's bookkeeping around schedule_job: pre-reservation statement + nested error handler
+        prel = 'batch/batch/driver/instance_collection/pool.py'
+        _src, body = hailload.load_function_source(prel, 'PoolScheduler.schedule_loop_body')
+        want = "instance.adjust_free_cores_in_memory(-record['cores_mcpu'])"
+        nested = {id(x) for f in ast.walk(body) if isinstance(f, (ast.FunctionDef, ast.AsyncFunctionDef)) and f is not body
+                  for x in ast.walk(f)}
+        pre = [n for n in ast.walk(body) if id(n) not in nested and isinstance(n, ast.Expr) and isinstance(n.value, ast.Call)
+               and isinstance(n.value.func, ast.Attribute) and n.value.func.attr == 'adjust_free_cores_in_memory'
+               and isinstance(n.value.func.value, ast.Name) and n.value.func.value.id == 'instance']
+        pre_src = [ast.unparse(n) for n in pre]
+        if len(pre) != 1:
+            raise Unsupported(f'PoolScheduler.schedule_loop_body: expected exactly one in-memory pre-reservation statement, found {pre_src}')
+        self.pool_prereserve_src = pre_src[0]
+        self.pool_prereserve = compile(ast.Module(body=[pre[0]], type_ignores=[]), f'{prel}:schedule_loop_body:pre-reservation', 'exec')
+        self.pool_schedule = self._nested(prel, 'PoolScheduler.schedule_loop_body', 'schedule_with_error_handling',
+                                          {'schedule_job': self.schedule_job})(None)
+
+        # unschedule_job with another end reason
+        src, _node = hailload.load_function_source(relpath, 'unschedule_job')
+        tree = ast.parse(textwrap.dedent(src))
+        hits = []
+        for call in ast.walk(tree):
+            if isinstance(call, ast.Call) and isinstance(call.func, ast.Attribute) and call.func.attr == 'execute_and_fetchone':
+                for a in call.args:
+                    if isinstance(a, ast.Tuple):
+                        for i, e in enumerate(a.elts):
+                            if isinstance(e, ast.Constant) and e.value == 'cancelled':
+                                hits.append((a, i))
+        if len(hits) != 1:
+            raise Unsupported(f"unschedule_job: expected exactly one constant 'cancelled' in the CALL arguments, found {len(hits)}")
+        tup, i = hits[0]
+        tup.elts[i] = ast.Name(id='_verif_reason', ctx=ast.Load())
+        ast.fix_missing_locations(tree)
+        g2 = dict(dj.__dict__)
+        exec(compile(tree, f'{relpath}:unschedule_job', 'exec'), g2)
+        self._unschedule_globals = g2
+        self.unschedule_job_reason = g2['unschedule_job']
 
     def _load_picks(self):
         from typing import Any, AsyncIterator, Dict
@@ -366,11 +461,15 @@ class World:
 
         class Ghost:
             state = None
+            ip_address = None
 
             def adjust_free_cores_in_memory(self, delta):
                 pass
 
             async def mark_healthy(self):
+                pass
+
+            async def incr_failed_request_count(self):
                 pass
         g = Ghost()
         g.name = name
@@ -487,24 +586,50 @@ class World:
 
     async def op_schedule_job(self, op):
         inst = self.instance_or_ghost(op['instance'])
-        rv = await self.db.execute_and_fetchone('CALL schedule_job(%s, %s, %s, %s);', (op['batch'], op['job'], op['attempt'], inst.name),
-                                                'schedule_job')
-        if rv['delta_cores_mcpu'] != 0 and inst.state == 'active':
-            inst.adjust_free_cores_in_memory(rv['delta_cores_mcpu'])
+        rows = self.q('SELECT cores_mcpu, job_group_id FROM jobs WHERE batch_id = %s AND job_id = %s', (op['batch'], op['job']))
+        row = dict(rows[0]) if rows else {'cores_mcpu': None, 'job_group_id': ROOT}
+        rows = self.q('SELECT user, format_version FROM batches WHERE id = %s', (op['batch'],))
+        row.update(dict(rows[0]) if rows else {'user': None, 'format_version': 7})
+        record = {'batch_id': op['batch'], 'job_id': op['job'], 'attempt_id': op['attempt'], 'job_group_id': row['job_group_id'],
+                  'format_version': row['format_version'], 'user': row['user'], 'cores_mcpu': row['cores_mcpu'], 'time_ready': None}
+        rec = RecordingDB(self.db)
+        app = dict(self.app)
+        app['db'] = rec
+        real = self.instance(op['instance'])
+        if real is not None:
+            real.mark_healthy = _async_noop          # instance attribute shadows the method for this call only (SUBSTITUTIONS)
+        try:
+            if real is not None and real.inst_coll.is_pool and record['cores_mcpu'] is not None:
+                # PoolScheduler.schedule_loop_body: reserve in memory, then schedule_with_error_handling (both real, cut out by AST)
+                exec(self.impl.pool_prereserve, {'instance': real, 'record': record})
+                await self.impl.pool_schedule(app, record, real)
+            else:
+                await self.impl.schedule_job(app, record, inst)
+        finally:
+            if real is not None:
+                real.__dict__.pop('mark_healthy', None)
+        if rec.error is not None:
+            raise rec.error
+        rv = rec.answers.get('schedule_job')
+        if rv is None:
+            raise AssertionError('schedule_job did not CALL schedule_job')
         return {'rc': rv['rc'], 'delta_cores': rv['delta_cores_mcpu']}
 
     async def op_unschedule_job(self, op):
         reason = op.get('reason', 'cancelled')
+        record = {'batch_id': op['batch'], 'job_id': op['job'], 'attempt_id': op['attempt'], 'instance_name': op['instance']}
         if reason == 'cancelled':
-            await self.impl.dj.unschedule_job(self.app, {'batch_id': op['batch'], 'job_id': op['job'], 'attempt_id': op['attempt'],
-                                                         'instance_name': op['instance']})
+            await self.impl.dj.unschedule_job(self.app, record)
             return {}
-        rv = await self.db.execute_and_fetchone('CALL unschedule_job(%s, %s, %s, %s, %s, %s);',
-                                                (op['batch'], op['job'], op['attempt'], op['instance'], op['time'], reason))
-        inst = self.instance(op['instance'])
-        if inst is not None and rv['delta_cores_mcpu'] and inst.state == 'active':
-            inst.adjust_free_cores_in_memory(rv['delta_cores_mcpu'])
+        self.impl._unschedule_globals['_verif_reason'] = reason
+        await self.impl.unschedule_job_reason(self.app, record)
         return {}
+
+    def worker_message(self, inst):
+        """A worker message reaches its handler only through active_instances_only (in-memory state 'active').  The runner delivers it
+        anyway (races with deactivation); the instance is then marked so that the in-memory clause of C10 does not judge it."""
+        if getattr(inst, 'state', None) != 'active' and hasattr(inst, '__dict__'):
+            inst.__dict__['_verif_unauthorised'] = True
 
     async def op_mark_creating(self, op):
         inst = self.instance_or_ghost(op['instance'])
@@ -513,12 +638,15 @@ class World:
 
     async def op_mark_started(self, op):
         inst = self.instance_or_ghost(op['instance'])
+        self.worker_message(inst)
         await self.impl.dj.mark_job_started(self.app, op['batch'], op['job'], op['attempt'], inst, op['time'], [])
         return {}
 
     async def op_mark_complete(self, op):
         rows = self.q('SELECT job_group_id FROM jobs WHERE batch_id = %s AND job_id = %s', (op['batch'], op['job']))
         job_group_id = rows[0]['job_group_id'] if rows else ROOT
+        if op.get('instance') is not None and op.get('state') != 'Cancelled':      # a worker's report (job_complete_1), not the canceller's
+            self.worker_message(self.instance(op['instance']))
         await self.impl.dj.mark_job_complete(self.app, op['batch'], op['job'], op.get('attempt'), job_group_id, op.get('instance'),
                                              op['state'], None, op.get('start'), op.get('end'), op.get('reason'), [])
         return {}
@@ -586,6 +714,12 @@ class World:
         async for rec in self.impl.picks[kind](s)(op['user'], Box(300)):
             out.add((rec['batch_id'], rec['job_id']))
         return {'jobs': [list(x) for x in sorted(out)]}
+
+    # ---- the driver's in-memory copy of the instances (auxiliary observation, not part of the projection compared with the model) ----
+    def mem_obs(self):
+        """[[name, in-memory state, in-memory free_cores_mcpu, 1 if a worker message was delivered past active_instances_only], ...]"""
+        return sorted([n, i.state, i.free_cores_mcpu, 1 if i.__dict__.get('_verif_unauthorised') else 0]
+                      for n, i in self.driver.inst_coll_manager.name_instance.items())
 
     # ---- observable projection ---------------------------------------------------------------------------------------
     def obs(self):
@@ -846,6 +980,7 @@ class Live:
         ent.update(extra)
         if want_obs:
             ent['obs'] = w.obs()
+            ent['mem'] = w.mem_obs()
         return ent
 
 
